@@ -26,6 +26,14 @@ static NPAT: AtomicUsize = AtomicUsize::new(0);
 static NEV: AtomicUsize = AtomicUsize::new(0);
 static ARMED: AtomicBool = AtomicBool::new(false);
 static TOTAL: AtomicUsize = AtomicUsize::new(0);
+/// the largest single request seen since the last reset (C16: no allocation out of proportion to the input)
+static MAXREQ: AtomicUsize = AtomicUsize::new(0);
+pub fn reset_max_request() {
+    MAXREQ.store(0, Ordering::Relaxed);
+}
+pub fn max_request() -> usize {
+    MAXREQ.load(Ordering::Relaxed)
+}
 
 pub struct TracingAlloc;
 
@@ -66,6 +74,7 @@ unsafe fn record(ptr: *const u8, size: usize) {
 
 unsafe impl GlobalAlloc for TracingAlloc {
     unsafe fn alloc(&self, l: Layout) -> *mut u8 {
+        MAXREQ.fetch_max(l.size(), Ordering::Relaxed);
         let p = System.alloc(l);
         // while armed, fresh blocks are cleared: what a block holds when it is released must have been WRITTEN there during the
         // section, not be left over from an earlier owner of the same memory (e.g. an unwiped reallocation of the harness itself)
@@ -83,6 +92,7 @@ unsafe impl GlobalAlloc for TracingAlloc {
     unsafe fn realloc(&self, p: *mut u8, l: Layout, new_size: usize) -> *mut u8 {
         // the old block may be released (or truncated) by the system allocator: what it holds now is what leaks
         record(p, l.size());
+        MAXREQ.fetch_max(new_size, Ordering::Relaxed);
         let q = System.realloc(p, l, new_size);
         if !q.is_null() && new_size > l.size() && ARMED.load(Ordering::Relaxed) {
             std::ptr::write_bytes(q.add(l.size()), 0, new_size - l.size());
